@@ -42,12 +42,16 @@ def concretise(ms, rng, variant):
             name = ("d%d/" % i) + "n" * rng.choice([60, 90, 94]) + ("/" if m["dir"] else "")
             if not m["visor"]:
                 prefix = "p" * rng.choice([10, 100, 151, 152, 155])  # ustar prefix field (overlaps the visor offset field position)
+            elif rng.random() < 0.6:
+                prefix = "v" * rng.choice([1, 10, 100, 150])         # a visor member whose path is split over name and prefix (ends before byte 496)
         data = content(i, size, variant.get("salt", 0))
         if variant.get("nested") and not m["dir"] and not m["inline"]:
             data = nested_tar(i)
             size = len(data)
         mm = {"name": name, "visor": m["visor"], "dir": m["dir"], "size": size, "inline": m["inline"], "slot": m["slot"],
               "data": data, "prefix": prefix}
+        if variant.get("typeflags") and not m["dir"]:
+            mm["typeflag"] = rng.choice([b"0", b"\0", b"7"])   # the three type flags every tar reader treats as a regular file
         if m.get("ext"):
             # an extension record of m["ext"] blocks (its header + payload) carries the real, long name
             kind = rng.choice(["gnu", "pax"])
@@ -115,6 +119,7 @@ VARIANTS = [
     {"id": "byte-align", "align": 1, "gap": 7, "salt": 2},
     {"id": "longnames", "align": 4096, "longnames": True, "trailing": 5, "tail": 3000, "salt": 3},
     {"id": "nested-tar-content", "align": 4096, "nested": True, "tail": 2048},
+    {"id": "regular-type-flags", "align": 512, "typeflags": True, "salt": 5},
 ]
 
 
